@@ -47,6 +47,34 @@ pub fn write_tree(root: &Path, t: &Tree, reverse: bool) -> io::Result<()> {
     Ok(())
 }
 
+/// The tree `t` (already written under `store`) once more under `root`, through symbolic links:
+/// `link_dirs == false`: directories are real, every file is a link to the stored file;
+/// `link_dirs == true`: every top-level directory is a link to the stored directory (everything below
+/// comes with it), top-level files are links too.
+pub fn write_tree_links(root: &Path, store: &Path, t: &Tree, link_dirs: bool) -> io::Result<()> {
+    use std::os::unix::fs::symlink;
+    std::fs::create_dir_all(root)?;
+    for d in &t.dirs {
+        let rel = d.rel();
+        let top = !rel.contains('/');
+        if link_dirs {
+            if top {
+                symlink(store.join(&rel), root.join(&rel))?;
+            }
+        } else {
+            std::fs::create_dir_all(root.join(&rel))?;
+        }
+    }
+    for f in &t.files {
+        let rel = f.rel();
+        let top = !rel.contains('/');
+        if !link_dirs || top {
+            symlink(store.join(&rel), root.join(&rel))?;
+        }
+    }
+    Ok(())
+}
+
 // ---------------------------------------------------------------------------------------------
 // archive members and orders
 
